@@ -65,11 +65,14 @@ const (
 	// expressionPrecedenceMultiplication is the expressionPrecedence of
 	// - BinaryExpression, with OperationMul, OperationMod, or OperationDiv
 	expressionPrecedenceMultiplication
+	// expressionPrecedenceMove is the expressionPrecedence of
+	// - UnaryExpression, with OperationMove
+	expressionPrecedenceMove
 	// expressionPrecedenceCasting is the expressionPrecedence of
 	// - CastingExpression
 	expressionPrecedenceCasting
 	// expressionPrecedenceUnaryPrefix is the expressionPrecedence of
-	// - UnaryExpression
+	// - UnaryExpression, except with OperationMove
 	// - IntegerExpression and FixedPointExpression, if negative
 	// - CreateExpression
 	// - ReferenceExpression
